@@ -53,8 +53,8 @@ const prelude = `(set-option :produce-models true)
 (assert (forall ((s Str)) (! (= (Str_of (Str_bytes s)) s) :pattern ((Str_bytes s)))))
 (assert (forall ((s Str)) (! (= (Bytes_len (Str_bytes s)) (Str_len s)) :pattern ((Str_bytes s)))))
 (assert (forall ((b Bytes)) (! (>= (Bytes_len b) 0) :pattern ((Bytes_len b)))))
-(define-fun go_div ((a Int) (b Int)) Int (ite (>= a 0) (ite (> b 0) (div a b) (- (div a (- b)))) (ite (> b 0) (- (div (- a) b)) (div (- a) (- b)))))
-(define-fun go_mod ((a Int) (b Int)) Int (- a (* b (go_div a b))))
+(declare-fun go_div (Int Int) Int)
+(declare-fun go_mod (Int Int) Int)
 (declare-fun bit_and (Int Int) Int)
 (declare-fun bit_or (Int Int) Int)
 (declare-fun bit_xor (Int Int) Int)
